@@ -585,7 +585,13 @@ def main():
     chk.cov["distribution"] = counts
     for sc in good[:3]:
         chk.sample({"scenario": sc.desc(), "calls": sc.n, "trace": merge_writes(sc.toks), "write_chunks": sc.chunks})
-    found_any = False
+    leak_reported = False
+    if known_seen:
+        sc, k, en, tms, rep = known_seen[0]
+        rep["occurrences"] = len(known_seen)
+        leak_reported = chk.violation(KEY_FDOPEN, "fdopen failure (fcntl F_GETFL -> %s) during %s leaves the temporary file %s and its descriptor behind although the call reports failure (%d such runs)" % (
+            en, sc.op, tms, len(known_seen)), rep)
+    found_any = bool(locals().get('leak_reported'))
     seen_keys = set()
     for key, desc, rep in spec_bad:
         if key in seen_keys:
@@ -593,11 +599,6 @@ def main():
         seen_keys.add(key)
         if chk.violation(key, desc, rep):
             found_any = True
-    if known_seen:
-        sc, k, en, tms, rep = known_seen[0]
-        rep["occurrences"] = len(known_seen)
-        chk.violation(KEY_FDOPEN, "fdopen failure (fcntl F_GETFL -> %s) during %s leaves the temporary file %s and its descriptor behind although the call reports failure (%d such runs)" % (
-            en, sc.op, tms, len(known_seen)), rep)
     seen_keys = set()
     for key, desc, rep in model_bad:
         if found_any or key in seen_keys:
